@@ -25,7 +25,8 @@ def diff_obs(exp, act, path=""):
     if path == "":
         exp, act = _norm_sets(exp), _norm_sets(act)
         if exp == act and isinstance(act, dict):
-            return ["no difference in the compared record: the order in which the pool yields its transactions puts a consumer before its producer"]
+            return ["no difference in the compared record (when the results agree too, a judgement outside the record failed: the order in which "
+                    "the pool yields its transactions, a crash-point image, or a replica)"]
     out = []
     if isinstance(exp, dict) and isinstance(act, dict):
         for k in sorted(set(exp) | set(act)):
